@@ -69,8 +69,8 @@ type analysis struct {
 	funcs []*fnInfo // reachable functions, in emission order (entry first)
 	specs map[*fnInfo]*spec
 	// per round accumulation
-	accP  map[*fnInfo]*spec
-	sites []*site
+	accP    map[*fnInfo]*spec
+	sites   []*site
 	demoted []string
 }
 
@@ -135,7 +135,8 @@ func (a *analysis) flow(n *node, st state, k int) state {
 		if k == 0 {
 			ycl := st.cl.has(n.y)
 			out.nn.set(n.y, true)
-			out.setVar(n.x, n.toIface || ycl, !n.toIface || ycl)
+			notn := !n.toIface && n.ptype >= 0 && !a.pk.tn[n.ptype]
+			out.setVar(n.x, n.toIface || ycl || notn, !n.toIface || ycl)
 		} else {
 			out.setVar(n.x, false, true)
 		}
@@ -161,7 +162,7 @@ func (a *analysis) flow(n *node, st state, k int) state {
 
 func succs(n *node) []*node {
 	switch n.kind {
-	case kRet:
+	case kRet, kHalt:
 		return nil
 	case kBranch, kGuard, kTypeTest:
 		return []*node{n.s1, n.s2}
@@ -189,6 +190,9 @@ func (a *analysis) intra(fi *fnInfo) {
 		work = work[:len(work)-1]
 		in := state{n.nn, n.cl}
 		for k, s := range succs(n) {
+			if n.kind == kGuard && k == 1 && in.nn.has(n.x) {
+				continue // the nil branch of a test of a certainly non-nil variable is dead
+			}
 			out := a.flow(n, in, k)
 			if !s.visited {
 				s.visited = true
@@ -328,12 +332,19 @@ func (a *analysis) selfCheck(allowed map[int]bool, c03 bool) []string {
 		for _, n := range g.nodes {
 			st := state{n.nn, n.cl}
 			for k, s := range succs(n) {
+				if n.kind == kGuard && k == 1 && n.nn.has(n.x) {
+					continue
+				}
 				out := a.flow(n, st, k)
 				if !s.nn.subsetOf(out.nn) || !s.cl.subsetOf(out.cl) {
 					bad = append(bad, fmt.Sprintf("%s node %d edge %d: annotation not implied", fi.name, n.id, k))
 				}
 			}
 			switch n.kind {
+			case kSet:
+				if n.rhs == rConv && !n.nn.has(n.y) && !a.pk.tn[n.ptype] {
+					bad = append(bad, fmt.Sprintf("%s node %d: conversion of a possibly nil %s", fi.name, n.id, a.pk.typeNames[n.ptype]))
+				}
 			case kUse:
 				if !(n.nn.has(n.x) && n.cl.has(n.x)) && !allowed[n.site.id] {
 					bad = append(bad, fmt.Sprintf("%s node %d: use %s", fi.name, n.id, n.site.key))
@@ -379,4 +390,55 @@ func (a *analysis) selfCheck(allowed map[int]bool, c03 bool) []string {
 	}
 	sort.Strings(bad)
 	return bad
+}
+
+// prune drops the nodes the certificate proves dead (reachable only through the nil branch of a test
+// of a certainly non-nil variable) and renumbers the rest; the dead branch of such a test is redirected
+// to its live branch (the checker does not look at it).
+func (a *analysis) prune() int {
+	dropped := 0
+	for _, fi := range a.funcs {
+		g := fi.g
+		var live []*node
+		for _, n := range g.nodes {
+			if n.visited {
+				n.id = len(live)
+				live = append(live, n)
+			} else {
+				dropped++
+			}
+		}
+		for _, n := range live {
+			if n.kind == kGuard && !n.s2.visited {
+				n.s2 = n.s1
+			}
+		}
+		g.nodes = live
+		keep := func(ss []*site) []*site {
+			var out []*site
+			for _, s := range ss {
+				if s.node.visited {
+					out = append(out, s)
+				}
+			}
+			return out
+		}
+		g.sites = keep(g.sites)
+		g.stores = keep(g.stores)
+		var convs []*convSite
+		for _, c := range g.convs {
+			if c.node == nil || c.node.visited {
+				convs = append(convs, c)
+			}
+		}
+		g.convs = convs
+	}
+	a.sites = nil
+	for _, fi := range a.funcs {
+		for _, s := range fi.g.sites {
+			s.id = len(a.sites)
+			a.sites = append(a.sites, s)
+		}
+	}
+	return dropped
 }
